@@ -59,6 +59,20 @@ try:
     if sol.success:
         out['k'] = [complex(x).real for x in np.atleast_1d(sol.k)]
         out['finite'] = bool(np.all(np.isfinite(sol.result)))
+        # Love numbers re-derived from the surface row of the public result array, per solution type: k = y5(R) - 1, h = g_s y1(R), l = g_s y3(R)
+        res = np.asarray(sol.result)
+        nty = res.shape[0] // 6
+        gs = float(grav[-1])
+        love = np.atleast_2d(np.asarray(sol.love))
+        worst = 0.0
+        rows = []
+        for t in range(nty):
+            k_, h_, l_ = res[6 * t + 4, -1] - 1.0, gs * res[6 * t + 0, -1], gs * res[6 * t + 2, -1]
+            for a, b in zip((k_, h_, l_), love[t]):
+                worst = max(worst, abs(a - b) / (abs(a) + abs(b) + 1e-300))
+            rows.append([[complex(k_).real, complex(k_).imag], [complex(love[t][0]).real, complex(love[t][0]).imag]])
+        out['love_vs_result_surface'] = worst
+        out['love_rows'] = rows
 except BaseException as e:
     out['exception'] = type(e).__name__
     out['exception_text'] = str(e)[:200]
